@@ -187,7 +187,8 @@ def drive(case, monitors, learner_cls=None, step_limit=10 ** 7, wall_s=600, use_
     midq = collections.Counter(case.get("midqueries") or [])
     P = part_cls or C.make_part_class(case["part"], hub)
     old = signal.signal(signal.SIGALRM, _alarm)
-    signal.alarm(int(wall_s))
+    wall_s = float(os.environ.get("PYXABMON_WALL_S") or wall_s)  # (test knob for the retry pass of the runner)
+    signal.alarm(int(wall_s * float(os.environ.get("PYXABMON_WALL_SCALE", "1") or 1)))
     phase = "init"
     inj = RNGInjection(case.get("inject"))
     try:
